@@ -37,6 +37,9 @@ pub enum Item {
     /// only): the interpreter must return an error, the compiled engines are not run
     Mem { region: MemRegion, op: MemOp, size: u8, reg: u8, tmp: u8, pos: u16, split: i16, oob: u8 },
     LdAbs { size: u8, pos: u16 },
+    /// packet load, a store through a pointer to (some of) the same packet bytes, the same packet
+    /// load again: the second load must see the store
+    LdStLd { size: u8, pos: u16, wsize: u8, val: i32, keep: u8, tmp: u8, ind: bool, reg_store: bool },
     /// `neg` = Some(imm < 0): the index register is chosen so that packet + index + zx(imm) is
     /// the intended in-bounds address (the interpreter zero-extends the immediate)
     LdInd { size: u8, src: u8, pos: u16, split: u16, neg: Option<i32> },
@@ -131,6 +134,8 @@ fn leaf(allow_calls: bool, nfuncs: usize, allow_pkt: bool) -> BoxedStrategy<Item
     let mem = (region, memop, size(), reg(), reg(), any::<u16>(), prop_oneof![2 => Just(0i16), 2 => any::<i16>(), 1 => -200i16..200], prop_oneof![150 => Just(0u8), 1 => 1u8..9])
         .prop_map(|(region, op, size, reg, tmp, pos, split, oob)| Item::Mem { region, op, size, reg, tmp, pos, split, oob });
     let ldabs = (size(), any::<u16>()).prop_map(|(size, pos)| Item::LdAbs { size, pos });
+    let ldstld = (size(), any::<u16>(), size(), interesting_i32(), 0u8..4, 0u8..5, any::<bool>(), any::<bool>())
+        .prop_map(|(size, pos, wsize, val, keep, tmp, ind, reg_store)| Item::LdStLd { size, pos, wsize, val, keep: 6 + keep, tmp: 1 + tmp, ind, reg_store });
     let ldind = (size(), reg(), any::<u16>(), any::<u16>(), prop_oneof![6 => Just(None), 1 => prop_oneof![Just(-1i32), Just(i32::MIN), -70000i32..0, any::<i32>().prop_map(|x| x | i32::MIN)].prop_map(Some)])
         .prop_map(|(size, src, pos, split, neg)| Item::LdInd { size, src, pos, split, neg });
     let helper = (any::<u8>(), [src(), src(), src(), src(), src()], [interesting_i32(), interesting_i32(), interesting_i32(), interesting_i32(), interesting_i32()])
@@ -150,6 +155,7 @@ fn leaf(allow_calls: bool, nfuncs: usize, allow_pkt: bool) -> BoxedStrategy<Item
     if allow_pkt {
         v.push((3, ldabs.boxed()));
         v.push((3, ldind.boxed()));
+        v.push((2, ldstld.boxed()));
     }
     if allow_calls && nfuncs > 0 {
         v.push((4, (0..nfuncs as u8).prop_map(|f| Item::Call { f }).boxed()));
@@ -470,6 +476,37 @@ impl<'a> Lower<'a> {
                 }
                 let o = (*pos as usize * (self.pkt_len - n + 1)) >> 16;
                 self.emit(Insn::new(ldabs_opc(n), 0, 0, 0, o as i32));
+            }
+            Item::LdStLd { size, pos, wsize, val, keep, tmp, ind, reg_store } => {
+                let (n, wn) = (*size as usize, *wsize as usize);
+                if self.pkt_len < n.max(wn) || self.in_func || matches!(self.vm, VmKind::NoData) {
+                    return;
+                }
+                let o = (*pos as usize * (self.pkt_len - n + 1)) >> 16;
+                // the store starts at the load's first byte, or ends with the packet
+                let wo = o.min(self.pkt_len - wn);
+                let load = |me: &mut Self| {
+                    if *ind {
+                        me.emit(Insn::new(alu_opc(true, ALU_MOV, false), *keep, 0, 0, (o / 2) as i32));
+                        me.emit(Insn::new(ldind_opc(n), 0, *keep, 0, (o - o / 2) as i32));
+                    } else {
+                        me.emit(Insn::new(ldabs_opc(n), 0, 0, 0, o as i32));
+                    }
+                };
+                load(self);
+                if !self.pkt_ptr(*tmp) {
+                    return;
+                }
+                if *reg_store {
+                    self.emit(Insn::new(alu_opc(true, ALU_MOV, false), *keep, 0, 0, *val));
+                    self.emit(Insn::new(stx_opc(wn), *tmp, *keep, wo as i16, 0));
+                } else {
+                    self.emit(Insn::new(st_opc(wn), *tmp, 0, wo as i16, *val));
+                }
+                // the temporary still holds a pointer: replace it by a number; keep the first value
+                self.emit(Insn::new(alu_opc(true, ALU_MOV, true), *tmp, 0, 0, 0));
+                load(self);
+                self.emit(Insn::new(alu_opc(true, ALU_MOV, true), *keep, 0, 0, 0));
             }
             Item::LdInd { size, src, pos, split, neg } => {
                 let n = *size as usize;
